@@ -147,8 +147,14 @@ class VSocket:
             if n > 1:
                 opts += ["one", "half", "all-but-one"]
             opts += ["wouldblock", "epipe"]
+            if getattr(self.k, "fin_menu", False) and n > 1 and not self.peer_closed:
+                # short write while the peer half-closes (FIN arrives; the peer keeps reading)
+                opts += ["one+peer-fin"]
             c = s.choose(len(opts), "env")
             o = opts[c]
+            if o == "one+peer-fin":
+                accept = 1
+                self.peer_closed = True
             if o == "one":
                 accept = 1
             elif o == "half":
